@@ -272,6 +272,56 @@ Section Loop.
         eapply IH; [eapply linv_step; eauto|exact H].
       + exfalso. clear -H. induction r as [|x r IHr]; cbn [fold_left] in H; [discriminate|auto].
   Qed.
+
+  (* the per-flow lists: a removed instance is no longer listed under its flow *)
+  Definition BInv (done : list string) (s : state) : Prop :=
+    forall f l, slook (by_flow s) f = Some l ->
+      NoDup l /\ (forall x i0, In x done -> slook F1 x = Some i0 -> i_flow i0 = f -> ~ In x l).
+
+  Lemma remove_first_nodup s l : NoDup l -> NoDup (remove_first s l) /\ ~ In s (remove_first s l).
+  Proof.
+    induction l as [|x r IH]; simpl; intro H; [split; [constructor|tauto]|].
+    inversion H as [|? ? Hx Hr]; subst. destruct (String.eqb x s) eqn:E.
+    - apply String.eqb_eq in E. subst. auto.
+    - apply String.eqb_neq in E. destruct (IH Hr) as [I1 I2]. split.
+      + constructor; [|exact I1]. intro Hin. apply Hx. eapply remove_first_in; eauto.
+      + intros [->|Hin]; [congruence|tauto].
+  Qed.
+
+  Lemma binv_init : (forall f l, slook B1 f = Some l -> NoDup l) -> BInv [] (mkState F1 B1 A1 R1).
+  Proof. intros H f l Hl. simpl in Hl. split; [eauto|]. intros x i0 []. Qed.
+
+  Lemma binv_step done s uid s' :
+    LInv done s -> BInv done s -> remove_one (Some s) uid = Some s' -> BInv (done ++ [uid]) s'.
+  Proof.
+    intros HI HB H. simpl in H.
+    destruct (slook (flows s) uid) as [fs|] eqn:Hfs; [|discriminate].
+    destruct (slook (by_flow s) (i_flow fs)) as [lst|] eqn:Hl; [|discriminate].
+    destruct (smem uid lst) eqn:Hm; [|discriminate].
+    inversion H; subst s'; clear H. intros f l Hf. simpl in Hf.
+    rewrite slook_supdate in Hf. destruct (String.eqb (i_flow fs) f) eqn:E.
+    - apply String.eqb_eq in E. subst f. rewrite Hl in Hf. simpl in Hf. inversion Hf; subst l.
+      destruct (HB _ _ Hl) as [Hnd Hg]. destruct (remove_first_nodup uid lst Hnd) as [N1 N2].
+      split; [exact N1|]. intros x i0 Hx Hx0 Hfl Hin. apply in_app_or in Hx as [Hx|[<-|[]]].
+      + apply (Hg x i0 Hx Hx0 Hfl). eapply remove_first_in; eauto.
+      + exact (N2 Hin).
+    - destruct (HB _ _ Hf) as [Hnd Hg]. split; [exact Hnd|].
+      intros x i0 Hx Hx0 Hfl Hin. apply in_app_or in Hx as [Hx|[<-|[]]].
+      + exact (Hg x i0 Hx Hx0 Hfl Hin).
+      + destruct (li_look _ _ HI _ _ Hfs) as (i1 & H1 & (Hflow & _) & _).
+        rewrite Hx0 in H1. inversion H1; subst i1. apply String.eqb_neq in E. congruence.
+  Qed.
+
+  Lemma lb_fold rem : forall done s s',
+    LInv done s -> BInv done s -> fold_left remove_one rem (Some s) = Some s' -> BInv (done ++ rem) s'.
+  Proof.
+    induction rem as [|u r IH]; intros done s s' HI HB H; cbn [fold_left] in H.
+    - inversion H; subst. now rewrite app_nil_r.
+    - destruct (remove_one (Some s) u) as [s1|] eqn:E.
+      + replace (done ++ u :: r)%list with ((done ++ [u]) ++ r)%list by (rewrite <- app_assoc; reflexivity).
+        eapply IH; [eapply linv_step; eauto|eapply binv_step; eauto|exact H].
+      + exfalso. clear -H. induction r as [|x r IHr]; cbn [fold_left] in H; [discriminate|auto].
+  Qed.
 End Loop.
 
 (* ---------------------------------------------------------------------------------- *)
@@ -492,6 +542,33 @@ Section Theorems0.
   Qed.
 
 
+
+  Lemma cleanup0_actions_ref a x :
+    slook (actions s') a = Some x -> exists u i, In (u, i) (flows s') /\ In a (i_actions i).
+  Proof.
+    destruct cleanup_inv as (s2 & HI & Hf & Hb & Hr & Ha). intro Hx.
+    destruct (rebuild_sound _ _ _ _ Ha) as (_ & _ & A3); [intros ? ? H; discriminate|].
+    destruct (A3 a x Hx) as [H|H]; [discriminate|].
+    unfold all_action_uids in H. apply in_flat_map in H as ([u i] & Hin & Hia). exists u, i. rewrite Hf. auto.
+  Qed.
+
+  Lemma cleanup0_by_gone :
+    (forall f l, slook (by_flow s) f = Some l -> NoDup l) ->
+    forall f l', slook (by_flow s') f = Some l' ->
+      NoDup l' /\ forall x i, slook (flows s) x = Some i -> removable c now i = true -> i_flow i = f -> ~ In x l'.
+  Proof.
+    intros Hnd f l' Hl'.
+    unfold cleanup0 in Hrun. fold rem in Hrun.
+    destruct (fold_left remove_one rem (Some (clear_scores s))) as [s2|] eqn:E; [|discriminate].
+    destruct (rebuild_actions (actions s2) (all_action_uids s2) []) as [acts|] eqn:E2; [|discriminate].
+    inversion Hrun; subst s'. simpl in Hl'.
+    assert (HB : BInv F1 ([] ++ rem) s2).
+    { eapply (lb_fold F1 (by_flow s) (actions s) (s_rest s)); [apply linv_init|apply binv_init; exact Hnd|exact E]. }
+    destruct (HB f l' Hl') as [N G]. split; [exact N|].
+    intros x i Hi Hr Hfl. apply (G x (clear_heads i)); [|rewrite F1_look, Hi; reflexivity|exact Hfl].
+    simpl. apply rem_spec. eauto.
+  Qed.
+
 End Theorems0.
 
 (* ---------------------------------------------------------------------------------- *)
@@ -657,11 +734,112 @@ Section Theorems.
     rewrite Hu, Ha, Hre. simpl. rewrite purge_flows_nil. destruct s'; simpl in *; subst; reflexivity.
   Qed.
 
+  Definition gone' (x : string) : Prop := slook (flows s') x = None.
+
+  Lemma cleanup_actions_ref a x :
+    slook (actions s') a = Some x -> exists u i, In (u, i) (flows s') /\ In a (i_actions i).
+  Proof.
+    destruct cleanup_via0 as (s0 & H0 & Hf & Hb & Ha & Hr). rewrite Ha. intro Hx.
+    destruct (cleanup0_actions_ref c now s s0 H0 a x Hx) as (u & i & Hin & Hia).
+    exists u, (purge_inst c rem i). split; [|exact Hia].
+    rewrite Hf. unfold purge_flows. apply in_map_iff. exists (u, i). auto.
+  Qed.
+
+  (* step 3b: no uid removed by this clean-up stays listed as a child or in an open scope *)
+  Lemma cleanup_purged u i' :
+    slook (flows s') u = Some i' ->
+    (purge_children c = true -> forall x, In x (i_children i') -> ~ In x rem) /\
+    (purge_scopes c = true -> forall k l x, slook (i_scopes i') k = Some l -> In x l -> ~ In x rem).
+  Proof.
+    destruct cleanup_via0 as (s0 & H0 & Hf & Hb & Ha & Hr). intro Hi'.
+    rewrite Hf, slook_purge in Hi'. destruct (slook (flows s0) u) as [i0|]; [|discriminate].
+    simpl in Hi'. inversion Hi'; subst i'. simpl. split.
+    - intros -> x Hx. apply keep_uids_in in Hx. tauto.
+    - intros -> k l x Hl Hx. rewrite slook_scopes_purge in Hl.
+      destruct (slook (i_scopes i0) k) as [l0|]; [|discriminate]. simpl in Hl. inversion Hl; subst l.
+      apply keep_uids_in in Hx. tauto.
+  Qed.
+
+  Lemma not_rem_present x ix :
+    slook (flows s) x = Some ix -> ~ In x rem -> slook (flows s') x <> None.
+  Proof.
+    intros Hx Hn. destruct cleanup_frame as (_ & Fr & _).
+    destruct (removable c now ix) eqn:E.
+    - exfalso. apply Hn. apply (rem_spec c now s Hdict). eauto.
+    - destruct (Fr x ix Hx E) as (i' & Hi' & _). congruence.
+  Qed.
+
+  (* the reference closure is an invariant of the clean-up (thanks to step 3b) *)
+  Theorem cleanup_preserves_closed :
+    purge_children c = true -> purge_scopes c = true -> closed_refs s -> closed_refs s'.
+  Proof.
+    intros Pc Ps [C1 C2 C3 C4].
+    destruct cleanup_frame as (_ & Fr & Fb & Fa & Fra & Fby & _).
+    constructor.
+    - intros u i' x Hi' Hx. destruct (Fb u i' Hi') as (i & Hi & Hnr).
+      destruct (Fr u i Hi Hnr) as (i2 & Hi2 & ((_ & _ & _ & _ & _ & _ & _ & _ & Hsub & _) & _)).
+      rewrite Hi' in Hi2. inversion Hi2; subst i2.
+      specialize (C1 u i x Hi (Hsub x Hx)). unfold present in *.
+      destruct (slook (flows s) x) as [ix|] eqn:Ex; [|congruence].
+      eapply not_rem_present; eauto. destruct (cleanup_purged u i' Hi') as [P _]. exact (P Pc x Hx).
+    - intros u i' k l x Hi' Hl Hx. destruct (Fb u i' Hi') as (i & Hi & Hnr).
+      destruct (Fr u i Hi Hnr) as (i2 & Hi2 & (_ & (_ & Hsc))).
+      rewrite Hi' in Hi2. inversion Hi2; subst i2.
+      destruct (Hsc k l Hl) as (l0 & Hl0 & Hsub & _).
+      specialize (C2 u i k l0 x Hi Hl0 (Hsub x Hx)). unfold present in *.
+      destruct (slook (flows s) x) as [ix|] eqn:Ex; [|congruence].
+      eapply not_rem_present; eauto. destruct (cleanup_purged u i' Hi') as [_ P]. exact (P Ps k l x Hl Hx).
+    - intros u i' a Hi' Ha. exact (Fra u i' a (slook_in _ _ _ Hi') Ha).
+    - intros f l' Hl'. destruct (Fby f l' Hl') as (l & Hl & Hsub & _).
+      destruct (C4 f l Hl) as [Hnd Hmem].
+      destruct cleanup_via0 as (s0 & H0 & Hf & Hb & Ha & Hr).
+      assert (HndAll : forall f0 l0, slook (by_flow s) f0 = Some l0 -> NoDup l0) by (intros f0 l0 H; exact (proj1 (C4 f0 l0 H))).
+      rewrite Hb in Hl'. destruct (cleanup0_by_gone c now s s0 Hdict H0 HndAll f l' Hl') as [N G].
+      split; [exact N|]. intros u Hu. destruct (Hmem u (Hsub u Hu)) as (i & Hi & Hfl).
+      destruct (removable c now i) eqn:E; [exfalso; exact (G u i Hi E Hfl Hu)|].
+      destruct (Fr u i Hi E) as (i' & Hi' & ((Efl & _) & _)). exists i'. split; [exact Hi'|congruence].
+  Qed.
+
+  (* every lookup through a list of a remaining instance resolves after the clean-up to the
+     frame-image of what it resolved to before; a uid that left a list named an instance this
+     clean-up discarded; the actions a remaining instance lists are the same objects *)
+  Theorem cleanup_lookups :
+    purge_children c = true -> purge_scopes c = true -> closed_refs s ->
+    forall u i i', slook (flows s) u = Some i -> slook (flows s') u = Some i' ->
+      (forall x, In x (i_children i') ->
+         exists ix ix', slook (flows s) x = Some ix /\ slook (flows s') x = Some ix' /\ frame_rel gone' ix ix') /\
+      (forall x, In x (i_children i) -> ~ In x (i_children i') ->
+         exists ix, slook (flows s) x = Some ix /\ removable c now ix = true /\ slook (flows s') x = None) /\
+      (forall k l' x, slook (i_scopes i') k = Some l' -> In x l' ->
+         exists ix ix', slook (flows s) x = Some ix /\ slook (flows s') x = Some ix' /\ frame_rel gone' ix ix') /\
+      (forall a, In a (i_actions i') -> exists act, slook (actions s) a = Some act /\ slook (actions s') a = Some act).
+  Proof.
+    intros Pc Ps Hcl u i i' Hi Hi'. pose proof Hcl as [C1 C2 C3 C4].
+    destruct cleanup_frame as (_ & Fr & Fb & Fa & Fra & _).
+    destruct (Fb u i' Hi') as (i1 & Hi1 & Hnr). rewrite Hi in Hi1. inversion Hi1; subst i1.
+    destruct (Fr u i Hi Hnr) as (i2 & Hi2 & Hfr). rewrite Hi' in Hi2. inversion Hi2; subst i2.
+    destruct Hfr as ((_ & _ & _ & _ & _ & Eact & _ & _ & Hsub & Hgone) & (_ & Hsc)).
+    assert (Res : forall x, present s x -> ~ In x rem ->
+              exists ix ix', slook (flows s) x = Some ix /\ slook (flows s') x = Some ix' /\ frame_rel gone' ix ix').
+    { intros x Hp Hn. unfold present in Hp. destruct (slook (flows s) x) as [ix|] eqn:Ex; [|congruence].
+      destruct (removable c now ix) eqn:E; [exfalso; apply Hn; apply (rem_spec c now s Hdict); eauto|].
+      destruct (Fr x ix Ex E) as (ix' & Hx' & Hf). exists ix, ix'. auto. }
+    destruct (cleanup_purged u i' Hi') as [P1 P2].
+    split; [|split; [|split]].
+    - intros x Hx. apply Res; [exact (C1 u i x Hi (Hsub x Hx))|exact (P1 Pc x Hx)].
+    - intros x Hx Hnx. specialize (Hgone x Hx Hnx). pose proof (C1 u i x Hi Hx) as Hp. unfold present in Hp.
+      destruct (slook (flows s) x) as [ix|] eqn:Ex; [|congruence]. exists ix. split; [reflexivity|]. split; [|exact Hgone].
+      destruct (removable c now ix) eqn:E; [reflexivity|]. destruct (Fr x ix Ex E) as (ix' & Hx' & _). congruence.
+    - intros k l' x Hl' Hx. destruct (Hsc k l' Hl') as (l0 & Hl0 & Hs2 & _).
+      apply Res; [exact (C2 u i k l0 x Hi Hl0 (Hs2 x Hx))|exact (P2 Ps k l' x Hl' Hx)].
+    - intros a Ha. pose proof (Fra u i' a (slook_in _ _ _ Hi') Ha) as Hn.
+      destruct (slook (actions s') a) as [act|] eqn:Ea; [|congruence]. exists act. split; [exact (Fa a act Ea)|reflexivity].
+  Qed.
+
   (* the part of event dispatch that is modelled: resolving the entries of the matcher index.
      If the index only lists heads of instances that are not done (the invariant the harness
      checks on real states), then after the clean-up every entry resolves to the same head of
      the same instance; the instance differs only as the frame allows. *)
-  Definition gone' (x : string) : Prop := slook (flows s') x = None.
 
   Theorem cleanup_candidates (ix : index) :
     needs_done c = true ->
